@@ -21,7 +21,8 @@ Definition denoted_version (version : bytes) : bytes := rev (strip_zeros_rev (re
 
 (* ---- configurations ---- *)
 Definition set_crc (c : cfg) (b : bool) : cfg :=
-  {| c_crc := b; c_v2 := c_v2 c; c_tid4 := c_tid4 c; c_hlen := c_hlen c; c_nsizes := c_nsizes c |}.
+  {| c_crc := b; c_v2 := c_v2 c; c_tid4 := c_tid4 c; c_hlen := c_hlen c; c_nsizes := c_nsizes c;
+     c_pad_cols := c_pad_cols c; c_pad_null := c_pad_null c; c_pad_tm := c_pad_tm c |}.
 
 (* an event after its checksum was cut off: the length field still counts the checksum *)
 Definition enc_ev_stripped (c : cfg) (h : hdr) (body : bytes) : bytes :=
